@@ -22,7 +22,7 @@ var paramEntries = []string{
 var owsParamEntries = []string{"text/plain ; charset=utf-8", "application/json\t;charset=utf-8", "application/xml ;version=1"}
 
 func init() {
-	if accept.JudgeOWSBeforeSemicolon { // TRIAGE-PENDING C06-2, see the flag
+	if accept.JudgeOWSBeforeSemicolon { // set: the library reads them as the same media type since 97ff218
 		paramEntries = append(paramEntries, owsParamEntries...)
 	}
 }
@@ -423,7 +423,7 @@ func genBodyMode(r *rand.Rand, tcp bool) string {
 			return "tcp-none"
 		}
 	}
-	switch k := r.Intn(20); {
+	switch k := r.Intn(23); {
 	case k < 5:
 		return "cl"
 	case k < 9:
@@ -434,8 +434,12 @@ func genBodyMode(r *rand.Rand, tcp bool) string {
 		return "none"
 	case k < 18:
 		return "cl0+hdr"
-	default:
+	case k < 20:
 		return "chunked-empty"
+	case k < 22:
+		return "unknown-length"
+	default:
+		return "unknown-length-empty"
 	}
 }
 
@@ -445,10 +449,11 @@ type group struct {
 	global     bool
 	def        string
 	registered []string
+	noProduces bool // no produces declared anywhere, no default producer, operations answer 204
 }
 
 func genGroup(r *rand.Rand) *group {
-	g := &group{def: genDefault(r), registered: genRegistered(r)}
+	g := &group{def: genDefault(r), registered: genRegistered(r), noProduces: r.Intn(10) == 0}
 	if r.Intn(6) == 0 {
 		g.global = true
 		g.ops = []opSpec{{consumes: genConsumes(r)}}
@@ -486,7 +491,10 @@ func genGroup(r *rand.Rand) *group {
 
 func genRequest(r *rand.Rand, g *group, tcp bool) (*Case, int) {
 	i := r.Intn(len(g.ops))
-	c := &Case{Consumes: g.ops[i].consumes, Global: g.global, Default: g.def, Registered: g.registered, NoBodyParam: g.ops[i].noParam, FormParam: g.ops[i].form}
+	c := &Case{Consumes: g.ops[i].consumes, Global: g.global, Default: g.def, Registered: g.registered, NoBodyParam: g.ops[i].noParam, FormParam: g.ops[i].form, NoProduces: g.noProduces}
+	if r.Intn(2) == 0 {
+		c.Entry2 = "routable"
+	}
 	if len(g.spec) > 0 && !g.global {
 		if len(c.Consumes) == 0 {
 			// an operation without a list of its own inherits the spec-level one
@@ -531,7 +539,7 @@ func run(m *mon.M) {
 	reported := map[string]int{}
 	for gi := 0; gi < ngroups; gi++ {
 		g := genGroup(r)
-		e, err := buildEnv(g.ops, g.global, g.def, g.registered, g.spec...)
+		e, err := buildEnv(g.ops, g.global, g.def, g.registered, g.noProduces, g.spec...)
 		if err != nil {
 			m.Class("env-build-failed")
 			m.Note("env_build_error:"+firstWords(err.Error()), 1)
